@@ -3,7 +3,7 @@
    the property monitors evaluated on the implementation's own answers, and the comparison of
    the model with the implementation.  Depends on Model.v (and C07.Model) only. *)
 From Coq Require Import String List ZArith NArith Bool.
-From TM Require Import Common.Hex Generated.Consts C07.Model C06.Model.
+From TM Require Import Common.Hex Generated.Consts C07.Model C06.Model C06.ModelF84.
 Import ListNotations.
 Open Scope Z_scope.
 
@@ -132,7 +132,15 @@ Inductive case :=
 (* MaxDataBytes(maxBytes, evBytes, n), MaxDataBytesNoEvidence(maxBytes, n); -1 = panic *)
 | CBudget (max_bytes ev_bytes n : Z) (mdb_i mdbne_i mcb_i : Z)
 (* Go variables the model has as literals: version.BlockProtocol, types.MaxSignatureSize *)
-| CConsts (block_protocol_i max_sig_i : Z).
+| CConsts (block_protocol_i max_sig_i : Z)
+(* F84 (written only when the harness runs with VERIF_C06_F84=1, i.e. against the repaired
+   validateBlock): as CValidate, compared with the repaired transcription *)
+| CValidate84 (st : stt) (blk : blkt) (orc : orct) (res_i : N)
+(* F84: a block whose LastCommit carries genuine signatures but relabelled ValidatorAddress
+   fields, built by MakeBlock (time = MedianTime of that commit) for a byzantine proposer.
+   [faulty] marks the byzantine validators by position in LastValidators; validateBlock's class;
+   CreateProposalBlock on the same commit: 0 = returned a block, 9 = panicked *)
+| CRelabel (st : stt) (blk : blkt) (orc : orct) (faulty : list bool) (res_i : N) (proposed_i : N).
 
 (* ------------------------------------------------------------------ instantiation *)
 
@@ -174,6 +182,10 @@ Definition validate_o (b : iblock) : option verr :=
   validate_block ideal_verify (fun x => x) ev_sizeO HcommitO HdataO HevO HvalsO HparamsO st b.
 Definition spec_o (b : iblock) : bool :=
   specb ideal_verify (fun x => x) ev_sizeO HcommitO HdataO HevO HvalsO HparamsO st b.
+Definition validate_r_o (b : iblock) : option verr_r :=
+  validate_block_r ideal_verify (fun x => x) ev_sizeO HcommitO HdataO HevO HvalsO HparamsO st b.
+Definition spec_r_o (b : iblock) : bool :=
+  specb_r ideal_verify (fun x => x) ev_sizeO HcommitO HdataO HevO HvalsO HparamsO st b.
 Definition make_o (height : Z) (txs : list Z) (c : commit6 isig) (evs : list bool) (p : hv) : iblock :=
   make_block HcommitO HdataO HevO HvalsO HparamsO st height txs c evs p.
 End Oracles.
@@ -198,6 +210,13 @@ Definition verr_code (e : option verr) : N :=
     | E_proposer_len => 40 | E_proposer_unknown => 41 | E_time_not_after => 42
     | E_time_median => 43 | E_time_genesis => 44 | E_height_low => 45 | E_ev_overflow => 46
     end
+  end%N.
+
+Definition verr_r_code (e : option verr_r) : N :=
+  match e with
+  | None => 0
+  | Some (VR e) => verr_code (Some e)
+  | Some VR_commit_address => 37
   end%N.
 
 Definition mism (b : bool) (code : N) : verdict := if b then V_ok else V_mismatch code.
@@ -303,6 +322,39 @@ Fixpoint list_eqb {A} (eqb : A -> A -> bool) (a b : list A) : bool :=
   | x :: a', y :: b' => eqb x y && list_eqb eqb a' b'
   | _, _ => false
   end.
+
+(* ------------------------------------------------------------------ F84: who signed what *)
+
+Definition slot_absent (s : isl) : bool := s_flag s =? block_id_flag_absent.
+
+(* every non-absent slot i carries the (20-byte) address of validator i *)
+Definition addresses_positional (vals : list validator) (sigs : list isl) : bool :=
+  Nat.eqb (List.length vals) (List.length sigs)
+  && forallb (fun vs => slot_absent (snd vs)
+                        || ((s_addr (snd vs) =? v_addr (fst vs)) && (s_alen (snd vs) =? address_size)))
+             (combine vals sigs).
+
+(* over the validators whose signature the commit carries (slot i belongs to validator i, that is
+   what VerifyCommit checked): their total power, the power of the faulty ones, the timestamps of
+   the correct ones *)
+Fixpoint signer_stats (vals : list validator) (sigs : list isl) (faulty : list bool)
+  : Z * Z * list Z :=
+  match vals, sigs with
+  | v :: vr, s :: sr =>
+    let f := match faulty with x :: _ => x | [] => false end in
+    let '(t, fp, hs) := signer_stats vr sr (tl faulty) in
+    if slot_absent s then (t, fp, hs)
+    else (t + v_power v, (if f then v_power v else 0) + fp, if f then hs else s_ts s :: hs)
+  | _, _ => (0, 0, [])
+  end.
+
+(* the block time lies between two timestamps of correct signers whenever the faulty signers hold
+   less than a third of the power the commit carries *)
+Definition time_between_honest (vals : list validator) (sigs : list isl) (faulty : list bool)
+           (time : Z) : bool :=
+  let '(t, fp, hs) := signer_stats vals sigs faulty in
+  negb ((3 * fp <? t) && negb (Nat.eqb (List.length hs) 0))
+  || (existsb (fun x => x <=? time) hs && existsb (fun x => time <=? x) hs).
 
 (* ------------------------------------------------------------------ the check *)
 
@@ -465,4 +517,32 @@ Definition check (c : case) : verdict :=
       mism (list_eqb bytes_eqb (results_leaves b) lb') 61 ]
   | CConsts bp ms =>
     first_of [ mism (bp =? block_protocol) 60; mism (ms =? max_signature_size) 60 ]
+  | CValidate84 s blk o res_i =>
+    let st := mk_state s in
+    let b := mk_block blk in
+    let spec := spec_r_o st o b in
+    let res_m := verr_r_code (validate_r_o st o b) in
+    let sigs := match b_lc b with Some c => cm_sigs c | None => [] end in
+    first_of [
+      viol (negb (res_i =? 0)%N || spec) 1;
+      viol (negb spec || (res_i =? 0)%N) 2;
+      viol (negb ((res_i =? 0)%N && negb (h_height (b_h b) =? st_initial st))
+            || addresses_positional (st_last_vals st) sigs) 19;
+      mism (Bool.eqb (res_m =? 0)%N (res_i =? 0)%N) 11;
+      mism (res_m =? res_i)%N 12 ]
+  | CRelabel s blk o faulty res_i proposed_i =>
+    let st := mk_state s in
+    let b := mk_block blk in
+    let res_m := verr_r_code (validate_r_o st o b) in
+    let sigs := match b_lc b with Some c => cm_sigs c | None => [] end in
+    let accepted := (res_i =? 0)%N && negb (h_height (b_h b) =? st_initial st) in
+    first_of [
+      (* accepted => the time is a weighted median of the SIGNERS' timestamps: with less than a
+         third of the commit's power faulty it lies between two correct signers' timestamps *)
+      viol (negb accepted || time_between_honest (st_last_vals st) sigs faulty (h_time (b_h b))) 20;
+      (* accepted => every non-absent slot names the validator whose signature it carries *)
+      viol (negb accepted || addresses_positional (st_last_vals st) sigs) 19;
+      mism (Bool.eqb (res_m =? 0)%N (res_i =? 0)%N) 11;
+      mism (res_m =? res_i)%N 12;
+      mism (proposed_i =? 0)%N 62 ]
   end.
